@@ -39,7 +39,7 @@ def deep(name, grammars, depths, **kw):
 
 PLANS = {
     "C01": {
-        "quick": [ex("peg2", "peg", 2, 3, alphabet=["a", "b", "E"]), ex("stat", "stat", 1, 3, alphabet=["a", "b", "E"], kinds=["static", "staticc", "str"]),
+        "quick": [ex("peg2", "peg", 2, 3, alphabet=["a", "b", "Z"]), ex("stat", "stat", 1, 3, alphabet=["a", "b", "E"], kinds=["static", "staticc", "str"]),
                   rec("pegR", "peg", 1500, 8, 8)],
         "thorough": [ex("peg2", "peg", 2, 4, alphabet=["a", "b", "E"]), ex("peg3", "peg", 3, 3), ex("stat", "stat", 1, 5, alphabet=["a", "b", "E"], kinds=["static", "staticc", "str"]),
                      rec("pegR", "peg", 20000, 10, 10)],
@@ -59,12 +59,18 @@ PLANS = {
         "thorough": [ex("peg3", "peg", 3, 3), ex("emit4", "emit", 4, 3), ex("ctx3", "ctx", 3, 3), rec("emitR", "emit", 20000, 10, 10), rec("pegR", "peg", 20000, 10, 10), rec("ctxR", "ctx", 10000, 10, 10)],
     },
     "C05": {
-        "quick": [ex("emit4", "emit", 4, 3), rec("emitR", "emit", 3000, 8, 8)],
-        "thorough": [ex("emit4", "emit", 4, 4), rec("emitR", "emit", 40000, 10, 10)],
+        "quick": [ex("emit4", "emit", 4, 3), ex("rcvE", "rcvE", 1, 5, alphabet=["a", "b", "!"], modes=["E"]), ex("rcv3", "rcv", 3, 3, modes=["E"]),
+                  rec("emitR", "emit", 3000, 8, 8), rec("rcvR", "rcv", 1500, 8, 8)],
+        "thorough": [ex("emit4", "emit", 4, 4), ex("rcvE", "rcvE", 1, 6, alphabet=["a", "b", "!"]), ex("rcv3", "rcv", 3, 4), ex("rcvT", "rcvT", 1, 5, alphabet=["a", "b", "!"]),
+                     rec("emitR", "emit", 40000, 10, 10), rec("rcvR", "rcv", 30000, 10, 10)],
     },
     "C06": {
-        "quick": [ex("err3", "err", 3, 3, etys=["rich"], modes=["E"]), ex("err2", "err", 2, 3, etys=ALL_ETYS), rec("errR", "err", 1500, 8, 8, etys=ALL_ETYS)],
-        "thorough": [ex("err3", "err", 3, 4, etys=["rich", "simple"]), ex("err2", "err", 2, 4, etys=ALL_ETYS), rec("errR", "err", 30000, 10, 10, etys=ALL_ETYS)],
+        "quick": [ex("err3", "err", 3, 3, etys=["rich"], modes=["E"]), ex("err2", "err", 2, 3, etys=ALL_ETYS),
+                  ex("lblT", "lblT", 1, 4, alphabet=["a", "b", "c"], etys=["rich", "simple"], modes=["E"]), ex("lbl2", "lbl", 2, 3, etys=ALL_ETYS, modes=["E"]),
+                  rec("errR", "err", 1500, 8, 8, etys=ALL_ETYS), rec("lblR", "lbl", 1000, 8, 8, etys=ALL_ETYS)],
+        "thorough": [ex("err3", "err", 3, 4, etys=["rich", "simple"]), ex("err2", "err", 2, 4, etys=ALL_ETYS),
+                     ex("lblT", "lblT", 1, 5, alphabet=["a", "b", "c"], etys=ALL_ETYS), ex("lbl3", "lbl", 3, 3, etys=["rich", "cheap"]),
+                     rec("errR", "err", 30000, 10, 10, etys=ALL_ETYS), rec("lblR", "lbl", 20000, 10, 10, etys=ALL_ETYS)],
     },
     "C07": {
         "quick": [ex("spn3", "spn", 3, 3, alphabet=["a", "b", "E"], kinds=["str"], invariants=INV_SPANS),
